@@ -12,7 +12,7 @@
 From stdpp Require Import gmap.
 From Coq Require Import ZArith List.
 From V Require Import Base.Codec Base.Res Base.ResCodec Sched.LedgerModel Sched.StmtModel Sched.LedgerCodec
-                      Sched.GangModel Sched.CycleModel Sched.CycleCodec Sched.CycleLaws Sched.CycleEntry
+                      Sched.LedgerInv Sched.GangModel Sched.CycleModel Sched.CycleCodec Sched.CycleLaws Sched.CycleEntry
                       Sched.NodeCapCheck Sched.NodeSumLemmas Sched.NodeSumCheck C02.BindModel.
 Import ListNotations.
 Open Scope Z_scope.
@@ -97,6 +97,14 @@ Definition run_agent (b : bind_case) : list Z :=
    accepted AddBindTask aimed at that node whose pod has not been deleted since (an accepted bind
    reserves the pod's request on its target from then on; a bind in flight appears in no delivered
    pod object, so a cache that forgets the reservation would otherwise go unnoticed). *)
+(* On the bind admission path EVERY dimension is guarded: NodeInfo.AddTask's Binding re-check is
+   LessEqualWithResourcesName over all keys of the request, 'pods' included (every pod asks pods: 1).
+   (In the cycle path 'pods' is outside the guard only because backfill places without any test.) *)
+Definition sum_le_all (l : list task) (bound_ : res) : bool :=
+  let s := sum_req l in
+  bool_decide (cpu s <= cpu bound_) && bool_decide (mem s <= mem bound_) &&
+  forallb (fun k => bool_decide (sget s k <= sget bound_ k)) (res_keys [s; bound_]).
+
 Definition law_bind (b : bind_case) (held : list (positive * list positive)) : bool :=
   let ts := map (task_of_spec (bc_eps b)) (bc_tasks b) in
   forallb (fun n =>
@@ -104,7 +112,7 @@ Definition law_bind (b : bind_case) (held : list (positive * list positive)) : b
     let alloc := mk_alloc (ns_cpu n) (ns_mem n) (ns_pods n) (ns_gpu n) in
     let initially := filter (fun t => bool_decide (t_node t = Some (ns_id n)) && on_node_status (t_status t)) ts in
     let now_ids := flat_map snd (filter (fun h => bool_decide (fst h = ns_id n)) held) in
-    implb (sum_le initially alloc) (sum_le (filter (fun t => bool_decide (t_id t ∈ now_ids)) ts) alloc))
+    implb (sum_le_all initially alloc) (sum_le_all (filter (fun t => bool_decide (t_id t ∈ now_ids)) ts) alloc))
     (bc_nodes b).
 
 Definition dBindLaw : dec (bind_case * list (positive * list positive)) :=
